@@ -81,6 +81,11 @@ func c07Opts(name string) *buildOpts {
 		return &buildOpts{after: func(s stackage.Stack, path string) {
 			s.SetNoNesting(true).SetParen(true).SetFold(true).SetLeadOnce(true).SetNoPadding(true)
 		}}
+	case "errored":
+		// an earlier call left an error behind (Err() non-nil) in every stack of the tree
+		return &buildOpts{fwd: true, after: func(s stackage.Stack, path string) {
+			decorate(s).SetErr(errCat)
+		}}
 	case "locked-down":
 		return &buildOpts{neg: true, after: func(s stackage.Stack, path string) {
 			s.SetMutex().SetFIFO(true).SetNoNesting(true).SetReadOnly(true)
@@ -118,7 +123,10 @@ func c07Check(c *Ctx, s stackage.Stack, cs c07Case, treeID int, count bool) {
 }
 
 func c07Trees(c *Ctx) []node {
-	atoms := []node{{T: "leaf"}, {T: "nil"}, {T: "E", K: "OR"}, {T: "CL"}}
+	atoms := []node{{T: "leaf"}, {T: "nil"}, {T: "E", K: "OR"}, {T: "CL"}, {T: "tnil"}}
+	if !c.Quick() {
+		atoms = append(atoms, node{T: "tnil2"})
+	}
 	wraps := []string{"S", "A", "CS", "PA", "CA"}
 	kinds := []string{"AND", "OR", "LIST", "NOT", "BASIC"}
 	var nested []node
@@ -189,8 +197,8 @@ func init() {
 			maxLen = 4
 		}
 		paths := c07Paths(maxLen, -1, 3)
-		optNames := []string{"default", "neg+fwd", "root-only", "children-only", "flags-after", "locked-down"}
-		c.Rule = "every tree of the bounded family (elements: leaf, nil, empty Stack, Condition(leaf), and nested Stack / alias / pointer-to-alias / Condition(Stack) / Condition(alias)) x 6 option placements (4 for the index options, 2 that switch unrelated flags, mutex, FIFO, read-only on after filling) x every index path of length 0..max with indices in [-1,3]; oracle = stepwise descent written from the statement using the real Index/Convert*/Expression; non-trivial = distinct (tree, options, path) where the stepwise walk fails before the last index or succeeds at depth >= 2"
+		optNames := []string{"default", "neg+fwd", "root-only", "children-only", "flags-after", "locked-down", "errored"}
+		c.Rule = "every tree of the bounded family (elements: leaf, nil, empty Stack, Condition(leaf), and nested Stack / alias / pointer-to-alias / Condition(Stack) / Condition(alias)) x 7 option placements (4 for the index options, 3 that switch unrelated flags, mutex, FIFO, read-only, presentation settings or an earlier error on after filling) x every index path of length 0..max with indices in [-1,3]; oracle = stepwise descent written from the statement using the real Index/Convert*/Expression; non-trivial = distinct (tree, options, path) where the stepwise walk fails before the last index or succeeds at depth >= 2"
 		c.Bound["trees"] = len(trees)
 		c.Bound["paths_per_tree"] = len(paths)
 		c.Bound["max_path_len"] = maxLen
